@@ -264,6 +264,7 @@ pub fn check_fill(c: &FillCase) -> CheckResult {
         }
         o.class_if(hit, "cubic-with-one-control-point-on-its-end-point");
     }
+    o.class_if(c.path.ops.windows(2).any(|w| matches!(w[0], POp::Z) && matches!(w[1], POp::Q(..) | POp::C(..))), "curve-directly-after-close");
     o.class_if(c.path.evenodd, "evenodd");
     Ok(o)
 }
@@ -273,6 +274,16 @@ fn fill_strategy() -> BoxedStrategy<FillCase> {
         2 => curvy_path(16.0),
         1 => poly_path(16.0),
         1 => (curvy_path(16.0), poly_path(16.0)).prop_map(|(a, b)| PathSpec { ops: [a.ops, b.ops].concat(), evenodd: a.evenodd }),
+        // a closed subpath continued without a move_to: whatever follows the close (a curve, mostly) starts at the
+        // closed subpath's first point
+        2 => (prop_oneof![poly_path(16.0), curvy_path(16.0)], curvy_path(16.0)).prop_map(|(a, b)| {
+            let mut ops = a.ops;
+            if !matches!(ops.last(), Some(POp::Z)) {
+                ops.push(POp::Z);
+            }
+            ops.extend(b.ops.into_iter().skip(1));
+            PathSpec { ops, evenodd: a.evenodd }
+        }),
     ]
     .prop_map(|mut path| {
         // coincidences random floats never produce: a control point exactly on the curve's own start or end
